@@ -563,7 +563,7 @@ def run(ctx):
     ctx.count("corpus_cases", len(corpus))
     for label, arpa, model, mtype in models:
         grams = parse_arpa(arpa)
-        sentences = corpus + gen_sentences(rng.fork(), grams, ctx.pick(25, 400))
+        sentences = corpus + gen_sentences(rng.fork(), grams, ctx.pick(25, 2500))
         seen, ss = set(), []
         for s in sentences:
             if s not in seen:
